@@ -65,6 +65,11 @@ DIRECTED = [
     # mixtures that once mattered
     "<a b='c' <d>", "<a b=c<d>e>", "<a\n\nb>\n\n<c>", "<p><a href='x'>y</a></p>", "<a>x</a", "<a>x</", "<a>x<", "<a>&", "<a>&#", "<a>&a", "<a>&#1", "<<a>", "<<", "<>", "< >", "< a>",
     "<\n", "<1>", "<->", "<=>", "<a></a></>", "<a href=\"x\"y>", "<a href=x\"y\">", "<img src=x onerror=\"a>b\">", "<a b=c d='e' f=\"g\" h>", "</a></b>", "</script>", "</style >",
+    # both sides of the exact round-trip predicates of Props/TK (CommentBodyOK, NoGt, CdataBodyOK, TextOK)
+    "<!--a>b--c- --->x", "<!--a-- \n>b-->x", "<!--a--->", "<!--a---->", "<!--a-->-->", "<!--a- ->b-->", "<!--a--\t\x0b>-->", "<!--a--!>b-->", "<!---->b-->",
+    "<!-- -- -- >x-->", "<!--a>-->", "<!--->-->", "<!---->-->", "<?a>b>x", "<?a?>b", "<?>>", "<?a\n>b", "<!DOCTYPE a [<!ENTITY b \"c\">]>x", "<!DocType html>x",
+    "<!doctype>>", "<!DOCTYPE>", "<![CDATA[a>b]]c] ]]]>x", "<![CDATA[a] \n] >b]]>x", "<![CDATA[a]]]>", "<![CDATA[a] ]]>", "<![CDATA[a]] ]>b]]>", "<![CDATA[]]]]>",
+    "<![CDATA[a]\xa0]>b]]>", "<![CDATA[a]>]]>", "<![CDATA[]>]]>", "a>b;\n<i>", "a& b<i>", "a&b<i>", "a<b<i>", "a<<i>", ">&<i>",
     "<a b='c' / d>", "<a b='c'/ d>", "<a b='c'/d>", "<a b='c' /d>", "<a b= c>", "<a b =c>", "<a b\t=\tc>", "<a b=\xa0c>", "<a b\xa0=c>", "<a b=c\x0bd>", "<a\x0c>", "<a\x0cb>",
 ]
 
@@ -298,6 +303,117 @@ def written_stream(ctx: Ctx, drv=None, n=None):
     stream(ctx, good, name="written-text:tokenizer", drv=drv)
 
 
+# ------------------------------------------------------------------------------------------------
+# the exact round-trip theorems of Props/TK against the real tokenizer and the real regular expressions
+# ------------------------------------------------------------------------------------------------
+EXACT_KINDS = {   # kind -> (open, close, callback, payload prefix, terminator alphabet)
+    "cm": ("<!--", "-->", "CM", "", ["-", "-", "--", ">", " ", "\n", "\t", "\xa0", "!", "a"]),
+    "pi": ("<?", ">", "PI", "", [">", "?", " ", "a", "\n", "<", "-"]),
+    "dt": ("<!DOCTYPE", ">", "DL", "DOCTYPE", [">", " ", "html", "[", "]", "\"", "<!ENTITY", "\n"]),
+    "cd": ("<![CDATA[", "]]>", "UD", "CDATA[", ["]", "]", "]]", ">", " ", "\n", "\x0b", "\xa0", "a", "["]),
+    "tx": ("", "", "D", "", ["<", "&", ">", ";", " ", "a", "\n", "é", "#"]),
+}
+EXACT_DIRECTED = {
+    "cm": ["", "a", "-", "--", "---", ">", "->", "-->", "a-->", "a-- >", "a--\n\t>b", "a- ->", "a--!>", "a>b--c- -", "a--b-", " a>b ", "a--\xa0>", "--\x0b>", "a-- >b-- >c",
+           "\ud800-->"],
+    "pi": ["", "a", ">", "a>", "a>b", "?", "a?", "a\n", "a>b>c", "<"],
+    "dt": ["", " html", " a [<!ENTITY b \"c\">]", ">", " >", "html", " html PUBLIC \"x\" \"y\"", "\n"],
+    "cd": ["", "a", "]", "]]", "]]]", ">", "]>", "]]>", "a]]>b", "a] ] >b", "a]\n]\n>", "a>b]]c] ]", "a] ]", "] >", "]\xa0]>", "a]]b>", "]]\x0b>", "a]]>b]]>c"],
+    "tx": ["a", "a>b;\n", "a&b", "a& b", "a<b", "<", "&", "a<", ">", " ", "é>", "a&#"],
+}
+
+
+def exact_oracle(kind, body):
+    """the predicate of the theorem, computed with the standard library's own compiled patterns (not with the model)"""
+    import _markupbase
+    from html import parser as hp
+    if kind == "cm":
+        return _markupbase._commentclose.search(body + "-->").start() == len(body)
+    if kind == "cd":
+        return _markupbase._markedsectionclose.search(body + "]]>").start() == len(body)
+    if kind in ("pi", "dt"):
+        return ">" not in body
+    return hp.interesting_normal.search(body) is None
+
+
+def exact_stream(ctx: Ctx, drv=None, n=None):
+    """`comment_roundtrip` / `comment_ends_at_first_close`, `pi_…`, `doctype_…`, `cdata_…`, `chardata_…` (Props/TK.lean) tied to the
+    real code. For bodies on both sides of each predicate (directed + random over the terminator's alphabet), text = writer(body) + "<i>":
+      (i)   the Lean predicate (`tk exact`) = the predicate computed with CPython's own compiled pattern;
+      (ii)  predicate true  -> the REAL tokenizer's first callback carries exactly `body` and the `<i>` callback is made at the
+            line/column of the offset just after the written construct (= the returned index of the theorem);
+      (iii) predicate false -> the REAL first callback carries a PROPER PREFIX of `body`, the one the model reports;
+      (iv)  the model's payload and returned index are those of the theorem (body / len(written)) when the predicate holds.
+    The full callback streams of the same texts go through `stream` (model = real, spans)."""
+    drv = drv or Driver()
+    cases = []
+    for kind, ds in EXACT_DIRECTED.items():
+        cases += [(kind, b) for b in ds]
+    alpha = {k: v[4] for k, v in EXACT_KINDS.items()}
+    for i in range(n if n is not None else ctx.n(3000, 30000)):
+        r = ctx.rng("tk-exact", i)
+        kind = r.choice(list(EXACT_KINDS))
+        b = "".join(r.choice(alpha[kind]) for _ in range(r.randint(0 if kind != "tx" else 1, 7)))
+        if kind in ("cm", "cd") and r.random() < 0.4:
+            # splice a (near-)terminator in: `--\s*>` / `]\s*]\s*>`, sometimes broken by one foreign character
+            w = lambda: "".join(r.choice([" ", "\n", "\t", "\x0b", "\xa0"]) for _ in range(r.randint(0, 2)))
+            t = ("--" + w() + ">") if kind == "cm" else ("]" + w() + "]" + w() + ">")
+            if r.random() < 0.3:
+                q = r.randrange(len(t))
+                t = t[:q] + r.choice(["a", "!", "-", "]"]) + t[q + (r.random() < 0.5):]
+            q = r.randint(0, len(b))
+            b = b[:q] + t + b[q:]
+        cases.append((kind, b))
+    rep = drv.ask([f"tk exact {k} {cps(b) or '-'}" for k, b in cases])
+    texts = []
+    for (kind, body), rp in zip(cases, rep):
+        op, cl, cb, pre, _ = EXACT_KINDS[kind]
+        written = op + body + cl
+        text = written + "<i>"
+        texts.append(text)
+        case = {"kind": kind, "body": body, "text": text}
+        ok = exact_oracle(kind, body)
+        ctx.count(f"tk-exact:{kind}:{'predicate-holds' if ok else 'predicate-fails'}")
+        ctx.case(("tk-exact", kind, body) if body else None)
+        mok, mpay, mlen = rp.split("|")
+        if mok != ("1" if ok else "0"):
+            ctx.violation("the Lean well-formedness predicate differs from the one computed with CPython's compiled pattern", case=case,
+                          expected=ok, model=rp, stream="tk-exact", no_failing_input=True)
+            continue
+        real = c04.record(text)
+        if not real:
+            ctx.violation("html.parser raised / produced nothing on a written construct", case=case, observed=real, stream="tk-exact", no_failing_input=True)
+            continue
+        f0 = real[0].split("|")
+        got = c04.uncps(f0[1]) if f0[0] == cb else None
+        if kind == "tx" and not ok and hp_first_special(body) == 0:
+            # the text begins with `<`/`&`: no leading data chunk in the model's turn
+            if mpay != "~":
+                ctx.violation("model reports a data chunk before a leading '<'/'&'", case=case, model=rp, stream="tk-exact", no_failing_input=True)
+            continue
+        if ok:
+            want_i = "ST|105|%d|%d|-" % linecol(text, len(written))
+            if got != pre + body or len(real) < 2 or real[1] != want_i:
+                ctx.violation("round trip fails on the real tokenizer although the predicate holds", case=case, expected=[cb + "|" + pre + body, want_i],
+                              observed=real[:2], stream="tk-exact", no_failing_input=True)
+            if c04.uncps(mpay) != pre + body or int(mlen) != len(written):
+                ctx.violation("the model's parse result is not the theorem's (body, len(written))", case=case, model=rp, stream="tk-exact",
+                              no_failing_input=True)
+        else:
+            mp = None if mpay == "~" else c04.uncps(mpay)
+            proper = got is not None and got.startswith(pre) and body.startswith(got[len(pre):]) and len(got) - len(pre) < len(body)
+            if not proper or got != mp:
+                ctx.violation("predicate fails but the real tokenizer does not report the model's proper prefix of the body", case=case,
+                              observed=real[:2], model=rp, stream="tk-exact", no_failing_input=True)
+    stream(ctx, texts, name="tk-exact:tokenizer", drv=drv)
+
+
+def hp_first_special(body):
+    from html import parser as hp
+    m = hp.interesting_normal.search(body)
+    return None if m is None else m.start()
+
+
 def mutate(r, text):
     s = list(text)
     for _ in range(r.randint(1, 3)):
@@ -356,7 +472,9 @@ def gen_texts(ctx, n):
 def run(ctx: Ctx):
     ctx.rule = ("recorder (plain HTMLParser(convert_charrefs=False), feed+close) vs the Lean tokenizer model, identical callback streams incl. positions; "
                 "streams: directed corpus of every construct (alone, shifted off line 1, followed by more input), C04 written documents, C04 token soup, "
-                "C01 PARSE_TOKENS soup, 1-3 character mutations of all of those, soup over special characters. non-trivial = more than one callback")
+                "C01 PARSE_TOKENS soup, 1-3 character mutations of all of those, soup over special characters; tk-exact: written comments / PIs / doctypes / "
+                "CDATA sections / character data with bodies on both sides of the exact round-trip predicates (predicate vs CPython's compiled pattern, "
+                "real first callback = body or the model's proper prefix). non-trivial = more than one callback (tk-exact: non-empty body)")
     ctx.assumptions = ["html.unescape, str.lower and the html5 entity table are parameters of the model, answered by the standard library per text",
                        "re's \\s set, re.I equivalents of the letters of script/style, and 'no non-ASCII code point lowers into doctype/script/style' "
                        "are built in and checked over all code points on every run"]
@@ -368,6 +486,7 @@ def run(ctx: Ctx):
         ctx.case((k, t) if t.count("<") + t.count("&") > 1 else None)
     stream(ctx, texts, name="tk", drv=drv, kinds=[k for k, _ in kt])
     written_stream(ctx, drv)
+    exact_stream(ctx, drv)
 
 
 def replay(path):
